@@ -9,7 +9,10 @@ import (
 	"owverif.local/verif/vf"
 )
 
-const massBalanceLimit = 1e-3 // the solver's own constant (models/routing/storage_routing.go)
+const (
+	massBalanceLimit = 1e-3 // the solver's own constants (models/routing/storage_routing.go)
+	convergenceLimit = 1e-8
+)
 
 func pm(model string, v []float64) map[string]float64 {
 	_, names := gridx.Defaults(model)
@@ -42,24 +45,55 @@ func srOracle(c *gridx.Case, r *vf.Rec) {
 		}
 		// implied net evaporation flux (m3/s) from the balance
 		E := I + L - Q - (S-prevS)/dt
-		pot := area * (evap - rain) / dt // the loosest reading of the potential net flux (no unit factor)
+		// net atmospheric flux: net rain is added in full; net evaporation is limited by the water available.
+		// The statement does not fix the depth unit, so either reading (mm as written in the spec, or the
+		// kernel's own unconverted figure) is accepted - but it must be one of them.
 		scale := math.Max(math.Max(I+L, Q), math.Max(S, prevS)/dt)
 		tol := 2*massBalanceLimit/dt + 1e-9*scale
-		lo, hi := math.Min(0, pot), math.Max(0, pot)
-		if E < lo-tol || E > hi+tol {
-			kind := "balance-residual-with-no-atmospheric-flux"
-			if pot != 0 {
-				kind = "balance-residual-outside-net-evaporation-bounds"
+		okE := false
+		var lo, hi float64
+		for _, unit := range []float64{1, 1e-3} {
+			pot := unit * area * (evap - rain) / dt
+			lo, hi = pot, pot
+			if pot > 0 {
+				lo = math.Min(pot, prevS/dt+I) // limited by the water in the reach
 			}
-			r.Failf("C11/StorageRouting/"+kind+"/"+cls, d, "StorageRouting t=%d: storage change %g != (inflow %g + lateral %g - outflow %g - E)*dt for any E in [%g,%g] (implied E=%g)", t, S-prevS, I, L, Q, lo, hi, E)
+			if E >= lo-tol && E <= hi+tol {
+				okE = true
+			}
+		}
+		if !okE {
+			kind := "balance-residual-with-no-atmospheric-flux"
+			if area*(evap-rain) != 0 {
+				kind = "balance-residual-is-not-the-net-evaporation"
+				if evap < rain {
+					kind = "balance-residual-is-not-the-net-rainfall"
+				}
+			}
+			r.Failf("C11/StorageRouting/"+kind+"/"+cls, d, "StorageRouting t=%d: storage change %g != (inflow %g + lateral %g - outflow %g - E)*dt with E the net atmospheric flux (implied E=%g, expected about %g)", t, S-prevS, I, L, Q, E, hi)
 			return
 		}
 		if bias == 0 && Q > 0 {
-			dq := massBalanceLimit / dt
-			f := func(q float64) float64 { return k*math.Pow(math.Max(q, 0), m) + dead }
-			slop := massBalanceLimit + 1e-9*S
-			if S < f(Q-dq)-slop || S > f(Q+dq)+slop {
-				r.Failf("C11/StorageRouting/storage-discharge-law-violated/"+cls, d, "StorageRouting t=%d: storage %g but k*Q^m+dead = %g (Q=%g, k=%g, m=%g)", t, S, f(Q), Q, k, m)
+			// S = k*q^m + dead where the index flow q solves q*dt + k*q^m = W (the water above the dead storage, W = S - dead + Q*dt).
+			// The solver stops when the residual is below massBalanceLimit or q is bracketed within convergenceLimit, so the
+			// index flow implied by the reported storage must be within those tolerances of the exact root.
+			W := (S - dead) + Q*dt
+			g := func(q float64) float64 { return q*dt + k*math.Pow(q, m) - W }
+			lo, hi := 0.0, W/dt
+			for it := 0; it < 200; it++ {
+				mid := 0.5 * (lo + hi)
+				if g(mid) > 0 {
+					hi = mid
+				} else {
+					lo = mid
+				}
+			}
+			qStar := 0.5 * (lo + hi)
+			qS := math.Pow(math.Max(S-dead, 0)/k, 1/m)
+			resid := math.Abs(g(qS))
+			if resid > massBalanceLimit*(1+1e-6)+1e-9*W && math.Abs(qS-qStar) > 2*convergenceLimit+1e-9*qStar {
+				d["index_flow_implied_by_storage"], d["exact_index_flow"], d["residual_m3"] = qS, qStar, resid
+				r.Failf("C11/StorageRouting/storage-discharge-law-violated/"+cls, d, "StorageRouting t=%d: storage %g and outflow %g: S = k*q^m + dead holds for q=%g but the balance needs q=%g (residual %g m3 > %g, index flow off by more than %g)", t, S, Q, qS, qStar, resid, massBalanceLimit, 2*convergenceLimit)
 				return
 			}
 		}
@@ -220,7 +254,7 @@ func spaces(tier string) []*gridx.Space {
 			sn = append(sn, fmt.Sprintf("k=%g m=%g %s", km[0], km[1], pn[i]))
 		}
 	}
-	srLetters := [][]float64{{0, 0, 0, 0}, {0.5, 0, 0, 0}, {20, 0, 0, 0}, {500, 3, 0, 0}, {0, 3, 0, 0}, {20, 0, 10, 0}, {0.5, 0, 0, 8}, {0, 0, 0, 8}}
+	srLetters := [][]float64{{0, 0, 0, 0}, {0.5, 0, 0, 0}, {20, 0, 0, 0}, {500, 3, 0, 0}, {0, 3, 0, 0}, {20, 0, 10, 0}, {0.5, 0, 0, 8}, {0, 0, 0, 8}, {0, 0, 10, 0}, {0.5, 0, 10, 2}, {0, 0, 2, 0.5}}
 	out = append(out, &gridx.Space{Model: "StorageRouting", Params: sp, PNames: sn, Letters: srLetters, T: T, Oracle: srOracle})
 
 	// Muskingum: (K, X) with 2KX <= dt <= 2K(1-X)
@@ -246,10 +280,10 @@ func spaces(tier string) []*gridx.Space {
 func Spec() *vf.Check {
 	return &vf.Check{
 		ID: "C11", Level: "exploration", BlockSize: 512,
-		Rule: "StorageRouting: (k,m) in {(21600,1),(86400,0.8),(172800,0.6)} x dead storage {0,5e4} x bias {0,0.2} x area {0,1e4} x every word of length T over 8 (inflow,lateral,rain,evap) letters: per-step balance, Q>=0, S>=0, S=k*Q^m+dead within the solver tolerance (bias 0). " +
+		Rule: "StorageRouting: (k,m) in {(21600,1),(86400,0.8),(172800,0.6)} x dead storage {0,5e4} x bias {0,0.2} x area {0,1e4} x every word of length T over 11 (inflow,lateral,rain,evap) letters: per-step balance, Q>=0, S>=0, S=k*Q^m+dead within the solver tolerance (bias 0). " +
 			"Muskingum: (K,X) grid in the stable region x every (inflow,lateral) word + 600-step zero tail: event volume conserved, no negative outflow; every letter as a 400-step steady flow passes unchanged. " +
 			"Lag: lag {0,1,2,3,5,8} x every word of every length 1..T+2 over {0,1,7} x {zero, pre-filled} carried-over buffer: FIFO reference for outputs and final buffer. distinct_nontrivial = cases with non-zero flow.",
-		Assumptions: []string{"potential net evaporation is bounded using the loosest reading of the units (area*(evap-rain)/dt)", "StorageRouting S(Q) law is required for |Q'-Q|*dt <= massBalanceLimit (the solver's tolerance on the index flow)", "lattice values only"},
+		Assumptions: []string{"potential net evaporation is bounded using the loosest reading of the units (area*(evap-rain)/dt)", "StorageRouting S(Q) law is required up to the solver's two stopping tolerances: a balance residual <= massBalanceLimit or an index flow within 2*convergenceLimit of the exact root (near Q=0 with m<1 the S(Q) slope is unbounded, so the second one matters); the exact root is found by bisection in the harness", "lattice values only"},
 		Build:       func(tier string) vf.Enumeration { return gridx.NewEnum("C11", spaces(tier)) },
 	}
 }
